@@ -113,6 +113,12 @@ func describeUDP(plans []udpPlan) string {
 }
 
 func runUDPBatch(t hx.TB, plans []udpPlan, round int) {
+	// A UDP association lives until its idle timeout (30 s, a constant of the server) has passed - also after the
+	// socket was closed. A long campaign therefore waits for earlier associations to go away before it starts new ones,
+	// or it would keep tens of thousands of them (and their buffers) alive at once.
+	for wait := 0; runtime.NumGoroutine() > 2500 && wait < 90; wait++ {
+		time.Sleep(500 * time.Millisecond)
+	}
 	pc := buildUDPServer(t)
 	defer pc.Close()
 	want := map[string][]byte{}
